@@ -1,5 +1,6 @@
 // C17 — SMB1/SMB2: negotiate/session-setup replies framed, correlated, consistent.
 
+use crate::vf::shadow::{shadow_opt, with_shadow, Shadow};
 use proptest::prelude::*;
 use serde::{Deserialize, Serialize};
 use serde_json::{json, Value};
@@ -33,15 +34,25 @@ pub struct Case {
     /// IP / TCP header fields the responder is not documented to look at
     #[serde(default)]
     pub tweak: Option<IpTweak>,
+    /// sibling traffic sent before every frame of the case (vf/shadow.rs)
+    #[serde(default)]
+    pub shadow: Option<Shadow>,
 }
 
 pub fn case_strategy() -> impl Strategy<Value = Case> {
+    (case_strategy0(), shadow_opt()).prop_map(|(mut c, sh)| {
+        c.shadow = sh;
+        c
+    })
+}
+
+fn case_strategy0() -> impl Strategy<Value = Case> {
     let fault = prop_oneof![
         6 => Just(Fault::None),
         2 => Just(Fault::ReplyFlag),
         3 => prop_oneof![2 => 0u16..=0x12, 2 => 0x70u16..0x76, 1 => any::<u16>()].prop_map(Fault::OtherCommand),
     ];
-    (scenario_levels(Fam::Any), port(), port(), smb_req(), fault, prop::option::weighted(0.25, crate::vf::props::c03::ip_tcp_tweak())).prop_map(|(scn, sport, dport, req, fault, tweak)| Case { scn, sport, dport, req, fault, tweak })
+    (scenario_levels(Fam::Any), port(), port(), smb_req(), fault, prop::option::weighted(0.25, crate::vf::props::c03::ip_tcp_tweak())).prop_map(|(scn, sport, dport, req, fault, tweak)| Case { shadow: None, scn, sport, dport, req, fault, tweak })
 }
 
 fn smb1_common(a: &[u8], hdr: &Smb1Hdr, cmd: u8) -> Result<usize, Failure> {
@@ -244,6 +255,10 @@ fn judge(req: &SmbReq, fault: &Fault, bytes: &[u8], negative: bool, app: &Option
 }
 
 pub fn check(c: &Case, st: &mut Stats) -> Check {
+    with_shadow(&c.shadow, st, |st| check0(c, st))
+}
+
+fn check0(c: &Case, st: &mut Stats) -> Check {
     Sut::reset();
     st.eval();
     let _ambient = AmbientGuard::set(&c.tweak);
